@@ -13,7 +13,16 @@ pub trait Alter: Sized {
     /// rebuild a proof from (sibling, bit) pairs; None when the type cannot be built from outside
     fn rebuild(path: &[(Fr, u8)]) -> Option<Self>;
 }
-impl Alter for FullMerkleProof<PoseidonHash> {
+/// a second hasher for the generic trees: default leaf 7 (not the field's zero), H(a, b) = 3a + 5b + 11
+#[derive(Clone, Copy, PartialEq, Eq)]
+pub struct ToyHash;
+impl zerokit_utils::merkle_tree::Hasher for ToyHash {
+    type Fr = Fr;
+    fn default_leaf() -> Fr { Fr::from(7u64) }
+    fn hash(input: &[Fr]) -> Fr { Fr::from(3u64) * input[0] + Fr::from(5u64) * input[1] + Fr::from(11u64) }
+}
+
+impl<H: zerokit_utils::merkle_tree::Hasher<Fr = Fr>> Alter for FullMerkleProof<H> {
     fn rebuild(path: &[(Fr, u8)]) -> Option<Self> {
         Some(FullMerkleProof(
             path.iter()
@@ -22,7 +31,7 @@ impl Alter for FullMerkleProof<PoseidonHash> {
         ))
     }
 }
-impl Alter for OptimalMerkleProof<PoseidonHash> {
+impl<H: zerokit_utils::merkle_tree::Hasher<Fr = Fr>> Alter for OptimalMerkleProof<H> {
     fn rebuild(path: &[(Fr, u8)]) -> Option<Self> {
         Some(OptimalMerkleProof(path.to_vec()))
     }
@@ -34,6 +43,8 @@ impl Alter for PmTreeProof {
 }
 
 pub enum Inst {
+    FullT(FullMerkleTree<ToyHash>),
+    OptT(OptimalMerkleTree<ToyHash>),
     Full(FullMerkleTree<PoseidonHash>),
     Opt(OptimalMerkleTree<PoseidonHash>),
     Pm(PmTree, Option<String>),
@@ -68,10 +79,11 @@ fn show_list(v: &[String]) -> String {
     format!("[{}]", v.join(","))
 }
 
-fn exec_on<T>(t: &mut T, w: &[&str]) -> Option<String>
+fn exec_on<H, T>(t: &mut T, w: &[&str]) -> Option<String>
 where
-    T: ZerokitMerkleTree<Hasher = PoseidonHash>,
-    T::Proof: ZerokitMerkleProof<Hasher = PoseidonHash, Index = u8> + Alter,
+    H: zerokit_utils::merkle_tree::Hasher<Fr = Fr>,
+    T: ZerokitMerkleTree<Hasher = H>,
+    T::Proof: ZerokitMerkleProof<Hasher = H, Index = u8> + Alter,
 {
     Some(match (w[0], w.len()) {
         ("set", 3) => res(t.set(parse_usize(w[1])?, parse_fr(w[2])?)),
@@ -238,6 +250,8 @@ impl TreeCtx {
             self.inst = Some(match w[2] {
                 "full" => Inst::Full(FullMerkleTree::<PoseidonHash>::default(depth).ok()?),
                 "opt" => Inst::Opt(OptimalMerkleTree::<PoseidonHash>::default(depth).ok()?),
+                "fullT" => Inst::FullT(FullMerkleTree::<ToyHash>::default(depth).ok()?),
+                "optT" => Inst::OptT(OptimalMerkleTree::<ToyHash>::default(depth).ok()?),
                 "pm" => Inst::Pm(<PmTree as ZerokitMerkleTree>::default(depth).ok()?, None),
                 "pmdisk" => {
                     // a fresh on-disk location per instance; removed when the context is dropped
@@ -321,6 +335,8 @@ impl TreeCtx {
                     Some(Inst::Pm(t, _)) => res(t.set_metadata(&b)),
                     Some(Inst::Full(t)) => res(t.set_metadata(&b)),
                     Some(Inst::Opt(t)) => res(t.set_metadata(&b)),
+                    Some(Inst::FullT(t)) => res(t.set_metadata(&b)),
+                    Some(Inst::OptT(t)) => res(t.set_metadata(&b)),
                     None => "bad-op".into(),
                 });
             }
@@ -329,6 +345,8 @@ impl TreeCtx {
                     Some(Inst::Pm(t, _)) => t.metadata(),
                     Some(Inst::Full(t)) => t.metadata(),
                     Some(Inst::Opt(t)) => t.metadata(),
+                    Some(Inst::FullT(t)) => t.metadata(),
+                    Some(Inst::OptT(t)) => t.metadata(),
                     None => return Some("bad-op".into()),
                 };
                 return Some(match r {
@@ -355,6 +373,8 @@ impl TreeCtx {
         match self.inst.as_mut() {
             Some(Inst::Full(t)) => exec_on(t, w),
             Some(Inst::Opt(t)) => exec_on(t, w),
+            Some(Inst::FullT(t)) => exec_on(t, w),
+            Some(Inst::OptT(t)) => exec_on(t, w),
             Some(Inst::Pm(t, _)) => exec_on(t, w),
             None => None,
         }
